@@ -332,8 +332,12 @@ type emObs struct {
 func emObserve(a *asm.Emitter) emObs {
 	o := emObs{Len: a.Len(), Cap: a.Cap(), PC: int64(a.PC()), Flags: int(a.Flags()), Base: int64(a.GetBase()),
 		M16: a.IsM16bit(), X16: a.IsX16bit(), Bytes: []int{}}
-	for _, b := range a.Bytes() {
-		o.Bytes = append(o.Bytes, int(b))
+	if emProtect(func() {
+		for _, b := range a.Bytes() {
+			o.Bytes = append(o.Bytes, int(b))
+		}
+	}) {
+		o.Bytes = []int{-1} // Bytes() itself panicked
 	}
 	for i := int64(0); i < emNL; i++ {
 		if v, ok := a.GetLabel(emName(i)); ok {
@@ -1295,11 +1299,33 @@ func emC19(sc emScript) *emFail {
 	a := asm.NewEmitter(emTarget(sc.Nil, sc.Cap, sc.Fill), sc.Gen)
 	for i, st := range sc.Steps {
 		before := emObserve(a)
-		p, _, err := emDoFlat(a, st)
+		p, info, err := emDoFlat(a, st)
 		if err != nil {
 			return nil
 		}
 		after := emObserve(a)
+		// all-or-nothing: an accepted call has emitted exactly its bytes after the old ones; a call whose
+		// bytes do not fit is refused
+		var want []int
+		switch {
+		case info != nil:
+			want = info.Bytes
+		case st.K == "bytes":
+			want = st.D
+		}
+		if !sc.Nil {
+			if !p {
+				exp := append(append([]int{}, before.Bytes...), want...)
+				if !reflect.DeepEqual(exp, after.Bytes) || after.Len != len(exp) {
+					return fail("C19.all_or_nothing", "partial-emission",
+						fmt.Sprintf("step %d (%s %s) was accepted with %d of %d bytes free: bytes before %v, the call's bytes %v, bytes after %v (Len %d)",
+							i, st.K, st.M, before.Cap-before.Len, before.Cap, before.Bytes, want, after.Bytes, after.Len))
+				}
+			} else if info != nil && info.Guard == "none" && before.Len+len(want) <= before.Cap {
+				return fail("C19.all_or_nothing", "refused-although-it-fits",
+					fmt.Sprintf("step %d (%s %s) panicked although its %d bytes fit (%d of %d used)", i, st.K, st.M, len(want), before.Len, before.Cap))
+			}
+		}
 		if after.Len > after.Cap {
 			return fail("C19.len_le_cap", "len-gt-cap", fmt.Sprintf("step %d (%s %s): Len %d > Cap %d", i, st.K, st.M, after.Len, after.Cap))
 		}
@@ -1319,6 +1345,10 @@ func emC19(sc emScript) *emFail {
 		p1, _, _ := emDoFlat(dry, st)
 		p2, _, _ := emDoFlat(big, st)
 		o1, o2 := emObserve(dry), emObserve(big)
+		if o1.Len > o1.Cap || o2.Len > o2.Cap || len(o1.Bytes) != o1.Len || len(o2.Bytes) != o2.Len {
+			return fail("C19.len_le_cap", "len-gt-cap", fmt.Sprintf("step %d (%s %s): nil target Len %d Cap %d Bytes %v; real target Len %d Cap %d",
+				i, st.K, st.M, o1.Len, o1.Cap, o1.Bytes, o2.Len, o2.Cap))
+		}
 		if p1 != p2 || o1.PC != o2.PC || o1.Flags != o2.Flags || !reflect.DeepEqual(o1.Labels, o2.Labels) {
 			return fail("C19.dry_run", "dry-run-differs",
 				fmt.Sprintf("step %d (%s %s): nil target refused=%v pc=%#x flags=%02x labels=%v; real target (cap %d) refused=%v pc=%#x flags=%02x labels=%v",
@@ -1389,6 +1419,23 @@ func emC16(sc emScript, k int) *emFail {
 		return fail("C16.equiv", "append-refused", fmt.Sprintf("split %d: Append refused although everything fits", k))
 	}
 	d, s := emFull(direct), emFull(orig)
+	// Finalize visits Go maps in random order; whether it succeeds, fails or panics is independent of the
+	// order only while every reference indexes its own operand, i.e. when no SetBase follows an emission
+	finDet := true
+	emitted := false
+	for _, st := range ops {
+		switch st.K {
+		case "call", "bytes":
+			emitted = true
+		case "setbase":
+			if emitted {
+				finDet = false
+			}
+		}
+	}
+	if !finDet {
+		d.Fin, s.Fin, d.Post, s.Post = emFin{Cls: "ok"}, emFin{Cls: "ok"}, nil, nil
+	}
 	switch {
 	case !emObsEqListed(d.Obs, s.Obs):
 		return fail("C16.equiv", "state", fmt.Sprintf("split %d: direct %+v, clone+append %+v", k, d.Obs, s.Obs))
@@ -1407,6 +1454,9 @@ func emC16(sc emScript, k int) *emFail {
 // greedy shrinking of a failing history
 func emShrink(sc emScript, k int, fails func(emScript, int) *emFail) (emScript, int, *emFail) {
 	best := fails(sc, k)
+	if best == nil { // not reproducible
+		return sc, k, nil
+	}
 	for changed := true; changed; {
 		changed = false
 		for i := 0; i < len(sc.Steps); i++ {
@@ -1436,6 +1486,16 @@ func emFlatOnly(sc emScript) emScript {
 	}
 	sc.Steps = st
 	return sc
+}
+
+// a panic escaping from the falsifier itself (an observer of the real emitter blew up) is a finding too
+func emGuarded(clause string, sc emScript, k int, f func() *emFail) (res *emFail) {
+	defer func() {
+		if r := recover(); r != nil {
+			res = &emFail{Clause: clause, Key: "observer-panic", Detail: fmt.Sprintf("observing the emitter panicked: %v", r), Script: sc, K: k}
+		}
+	}()
+	return f()
 }
 
 func emCheckCmd(args []string) int {
@@ -1491,17 +1551,24 @@ func emCheckCmd(args []string) int {
 				t := sc
 				t.Nil, t.Cap = false, c
 				ne++
-				if f := emC19(t); f != nil && !seen[f.Key] {
-					s2, _, f2 := emShrink(t, 0, func(s emScript, _ int) *emFail { return emC19(s) })
-					_ = s2
+				if f := emGuarded("C19.observers", t, 0, func() *emFail { return emC19(t) }); f != nil && !seen[f.Key] {
+					_, _, f2 := emShrink(t, 0, func(s emScript, _ int) *emFail { return emGuarded("C19.observers", s, 0, func() *emFail { return emC19(s) }) })
+					if f2 == nil {
+						f2 = f
+					}
 					report(f2)
 				}
 			}
 		case "c16":
 			for k := 0; k <= len(sc.Steps); k++ {
 				ne++
-				if f := emC16(sc, k); f != nil && !seen[f.Key] {
-					_, _, f2 := emShrink(sc, k, emC16)
+				if f := emGuarded("C16.observers", sc, k, func() *emFail { return emC16(sc, k) }); f != nil && !seen[f.Key] {
+					_, _, f2 := emShrink(sc, k, func(s emScript, kk int) *emFail {
+						return emGuarded("C16.observers", s, kk, func() *emFail { return emC16(s, kk) })
+					})
+					if f2 == nil {
+						f2 = f
+					}
 					report(f2)
 				}
 			}
